@@ -194,7 +194,7 @@ class ContractMixin:
     # ------------------------------------------------------------------
     # contract application at a call site
     # ------------------------------------------------------------------
-    def apply_contract(self, st, c, args, kw, node, self_sv=None):
+    def apply_contract(self, st, c, args, kw, node, self_sv=None, static=False):
         self.used_contracts.add(c.qualname)
         if st.init_assigned is not None and c.qualname.endswith('.__init__') and self_sv is not None \
                 and 'self' in st.env and isinstance(st.env['self'], SV) and z3.eq(st.env['self'].t, self_sv.t):
@@ -266,12 +266,21 @@ class ContractMixin:
             st.assume(res.t >= pre.alloc)
         extra = dict(env)
         extra['result'] = res
-        for cl in c.ensures:
+        for cl in list(c.ensures) + (list(c.static_ensures) if static else []):
             st.assume(self.eval_contract_expr(st, cl.expr, extra, pre, use_env=extra))
         if c.ensures and not self.feasible(st):
             # either the path was already dead or the contract is contradictory; tell them apart
             if self.feasible(pre):
                 raise OutsideSubset('postcondition of %s is contradictory at this call' % c.qualname)
+        if self_sv is not None and (c.modifies or c.qualname.endswith('.__init__')) and not c.assumed \
+                and self.spec_depth == 0 and not self.in_contract:
+            # the callee re-establishes the class invariants of its receiver on normal return
+            # (obligation `post:invariant:*` of the callee's own verification)
+            owner = c.qualname.rsplit('.', 1)[0]
+            if owner in api.MODELS or self.classes.is_real(owner):
+                for cl in self.classes.invariants(owner):
+                    env2 = {'self': SV(TRef(owner), self_sv.t)}
+                    st.assume(self.eval_contract_expr(st, cl.expr, env2, pre, use_env=env2))
         outs.append((st, res))
         return outs
 
@@ -372,6 +381,19 @@ class ContractMixin:
             for s2, (m, k, v) in self.eval_many(st, e.args):
                 m = self.need_value(m)
                 outs.append((s2, self.map_set(m, self.need_value(k), self.need_value(v))))
+            return outs
+        if name == 'removed':
+            # removed(m, k): the mapping m without key k (insertion order of the others kept)
+            outs = []
+            for s2, (m, k) in self.eval_many(st, e.args):
+                m, k = self.need_value(m), self.need_value(k)
+                kk = box(coerce(k, m.ty.k, self.classes))
+                ks = m.ty.keys(m.t)
+                from .types import sunit
+                i = z3.IndexOf(ks, sunit(m.ty.k, kk), 0)
+                n = z3.Length(ks)
+                nk = z3.If(i < 0, ks, z3.Concat(z3.SubSeq(ks, 0, i), z3.SubSeq(ks, i + 1, n - i - 1)))
+                outs.append((s2, SV(m.ty, m.ty.mk(nk, m.ty.vals(m.t)))))
             return outs
         if name == 'keys':
             outs = []
